@@ -213,10 +213,20 @@ pub fn next_work_epoch(v: &Mvm) -> Option<ChainEpoch> {
         Ok(())
     })
     .unwrap();
-    for e in power_cron_queue(v).keys() {
-        if best.is_none_or(|b| *e < b) {
-            best = Some(*e);
-        }
+    // keys of the power actor's cron queue (outer HAMT only; the per-epoch arrays are not loaded)
+    {
+        use integer_encoding::VarInt;
+        let pst: fil_actor_power::State = state(v, &STORAGE_POWER_ACTOR_ADDR).unwrap();
+        let outer = fil_actors_runtime::make_map_with_root_and_bitwidth::<_, Cid>(&pst.cron_event_queue, v.store.as_ref(), fil_actor_power::CRON_QUEUE_HAMT_BITWIDTH).unwrap();
+        outer
+            .for_each(|k, _| {
+                let (e, _) = i64::decode_var(&k.0).unwrap();
+                if best.is_none_or(|b| e < b) {
+                    best = Some(e);
+                }
+                Ok(())
+            })
+            .unwrap();
     }
     best
 }
